@@ -4,7 +4,7 @@
     by the extracted OCaml runner, so the two evaluation routes check each other.
     Nothing in this file is used by a theorem. *)
 From Coq Require Import String.
-From OtpV Require Import Prelude Sha Tables Errors Decoder Derive Otp Ocra.
+From OtpV Require Import Prelude Sha Tables Errors Decoder Derive Otp Ocra Rfc4226 Rfc6287.
 Open Scope string_scope.
 Open Scope N_scope.
 Open Scope list_scope.
@@ -133,6 +133,97 @@ Definition run_fields (f : list bytes) : bytes * bool :=
     (r_unit (input_validate (parse_suite (a 1%nat)) (parse_input (a 2%nat))), true)
   else (s2b "unknown-op", true).
 
+(** ---- the specification, evaluated on the same case (third output column).  It does not
+    depend on Generated/Tables.v, so a wrong table entry shows up as impl <> spec even though
+    the regenerated model follows the table. ---- *)
+Definition werr {A} : outcome A := Err (EStd 0 []).
+Definition eff30 (period : N) : N := if period =? 0 then 30 else period.
+
+Definition spec_ghotp (secret : bytes) (c : N) (p : option param) : outcome bytes :=
+  let p := match p with Some p => p | None => mkParam 6 0 2 0 end in
+  match decode_secret secret, alg_of_N (p_alg p) with
+  | Ok key, Some a =>
+    if (1 <=? p_digits p) && (p_digits p <=? 10) then Ok (hotp_value hmac a key c (N.to_nat (p_digits p))) else werr
+  | _, _ => werr
+  end.
+
+Definition spec_window (secret code : bytes) (centre : N) (p : param) : bytes :=
+  if 10 <? p_skew p then s2b "v:false:*"
+  else match decode_secret secret, alg_of_N (p_alg p) with
+       | Ok key, Some a =>
+         if (1 <=? p_digits p) && (p_digits p <=? 10) then
+           let cs := map (fun k => centre - p_skew p + N.of_nat k) (seq 0 (N.to_nat (centre + p_skew p - (centre - p_skew p)) + 1)) in
+           if existsb (fun c' => bytes_eqb code (hotp_value hmac a key c' (N.to_nat (p_digits p)))) cs
+           then s2b "v:true:-" else s2b "v:false:*"
+         else s2b "v:false:*"
+       | _, _ => s2b "v:false:*"
+       end.
+
+Definition usable_b (cfg : suite_cfg) : bool :=
+  (4 <=? sc_digits cfg)%Z && (sc_digits cfg <=? 10)%Z && (sc_hash cfg <? 3) &&
+  (negb (sc_p cfg) || negb (sc_pwhash cfg =? 0)%Z) && (negb (sc_t cfg) || (0 <? sc_timestep cfg)%Z) &&
+  (negb (sc_q cfg) || negb (sc_challenge cfg =? 0)%Z).
+Definition chal_min_b (f : Z) : Z :=
+  if ((f =? 1) || (f =? 3) || (f =? 5))%Z then 8%Z else if ((f =? 2) || (f =? 4) || (f =? 6))%Z then 10%Z else 0%Z.
+Definition admissible_b (cfg : suite_cfg) (i : ocra_input) : bool :=
+  (negb (sc_c cfg) || (zlen (oi_counter i) =? 8)%Z) &&
+  (negb (sc_q cfg) || ((chal_min_b (sc_challenge cfg) <=? zlen (oi_challenge i))%Z && (zlen (oi_challenge i) <=? 128)%Z)) &&
+  (negb (sc_p cfg) || (zlen (oi_password i) =? (if (sc_pwhash cfg =? 1)%Z then 20 else if (sc_pwhash cfg =? 2)%Z then 32 else 64))%Z) &&
+  (negb (sc_s cfg) || (zlen (oi_session i) <=? 128)%Z) &&
+  (negb (sc_t cfg) || (zlen (oi_timestamp i) =? 8)%Z).
+Definition enum_ok_b (cfg : suite_cfg) : bool :=
+  (0 <=? sc_challenge cfg)%Z && (sc_challenge cfg <=? 6)%Z && (negb (sc_p cfg) || ((1 <=? sc_pwhash cfg)%Z && (sc_pwhash cfg <=? 3)%Z)).
+Definition selb (b : bool) (x : bytes) : option bytes := if b then Some x else None.
+
+Definition spec_gocra (secret : bytes) (cfg : suite_cfg) (i : ocra_input) : outcome bytes :=
+  match decode_secret secret, alg_of_N (sc_hash cfg) with
+  | Ok key, Some a =>
+    if usable_b cfg && admissible_b cfg i then
+      Ok (ocra_value hmac a key (sc_raw cfg) (selb (sc_c cfg) (oi_counter i)) (selb (sc_q cfg) (oi_challenge i))
+            (selb (sc_p cfg) (oi_password i)) (selb (sc_s cfg) (oi_session i)) (selb (sc_t cfg) (oi_timestamp i))
+            (Z.to_nat (sc_digits cfg)))
+    else werr
+  | _, _ => werr
+  end.
+
+Definition spec_fields (f : list bytes) : option bytes :=
+  let a i := fld f i in
+  let op := a 0%nat in
+  if bytes_eqb op (s2b "ghotp") then Some (r_bytes (spec_ghotp (unhx (a 1%nat)) (parse_N (a 2%nat)) (parse_param (a 3%nat))))
+  else if bytes_eqb op (s2b "gtotp") then
+    let p := match parse_param (a 3%nat) with Some p => p | None => mkParam 6 30 0 0 end in
+    Some (r_bytes (spec_ghotp (unhx (a 1%nat)) (Z.to_N (parse_time_sec (a 2%nat)) / eff30 (p_period p)) (Some p)))
+  else if bytes_eqb op (s2b "vhotp") then
+    let p := match parse_param (a 4%nat) with Some p => p | None => mkParam 6 0 2 0 end in
+    Some (spec_window (unhx (a 1%nat)) (unhx (a 2%nat)) (parse_N (a 3%nat)) p)
+  else if bytes_eqb op (s2b "vtotp") then
+    let p := match parse_param (a 4%nat) with Some p => p | None => mkParam 6 30 0 0 end in
+    Some (spec_window (unhx (a 1%nat)) (unhx (a 2%nat)) (Z.to_N (parse_time_sec (a 3%nat)) / eff30 (p_period p)) p)
+  else if bytes_eqb op (s2b "gocra") || bytes_eqb op (s2b "gocra_raw") then
+    let cfg := parse_suite (a 2%nat) in
+    if enum_ok_b cfg then Some (r_bytes (spec_gocra (unhx (a 1%nat)) cfg (parse_input (a 3%nat)))) else None
+  else if bytes_eqb op (s2b "vocra") then
+    let cfg := parse_suite (a 3%nat) in
+    if enum_ok_b cfg then
+      Some (match spec_gocra (unhx (a 1%nat)) cfg (parse_input (a 4%nat)) with
+            | Ok code => if bytes_eqb code (unhx (a 2%nat)) then s2b "v:true:-" else s2b "v:false:*"
+            | _ => s2b "v:false:*" end)
+    else None
+  else if bytes_eqb op (s2b "mod10") then
+    let i := parse_N (a 1%nat) in if (1 <=? i) && (i <=? 10) then Some (s2b "ok:n" ++ dec_of_N (10 ^ i)) else None
+  else if bytes_eqb op (s2b "trunc") then
+    let sum := unhx (a 1%nat) in let md := parse_N (a 2%nat) in
+    if (Nat.leb 20 (length sum)) && negb (md =? 0) then Some (s2b "ok:n" ++ dec_of_N (dt31 sum mod md)) else None
+  else if bytes_eqb op (s2b "short") then
+    let d := parse_Z (a 2%nat) in
+    if (0 <=? d)%Z && (d <=? 8)%Z then Some (s2b "ok:" ++ hex_of (pad_dec (Z.to_nat d) (parse_N (a 1%nat)))) else None
+  else if bytes_eqb op (s2b "long") || bytes_eqb op (s2b "fmtdec") then
+    let d := parse_Z (a 2%nat) in
+    if (0 <=? d)%Z && (d <=? 12)%Z then Some (s2b "ok:" ++ hex_of (pad_dec (Z.to_nat d) (parse_N (a 1%nat)))) else None
+  else None.
+
 Definition run_case (line : bytes) : bytes :=
-  let '(out, dom) := run_fields (split_on 32 line) in
-  out ++ [9] ++ (if dom then [49] else [48]).
+  let f := split_on 32 line in
+  let '(out, dom) := run_fields f in
+  out ++ [9] ++ (if dom then [49] else [48]) ++ [9] ++
+      (if dom then match spec_fields f with Some sp => sp | None => [45] end else [45]).
